@@ -72,8 +72,13 @@ def cache_load(url):
 
         # The data has been decoded as UTF-8; do not depend on the locale's
         # encoding when writing the cache copy.
-        with open(cache_file, "w", encoding="utf-8") as local_file:
+        # The copy is written under another name and moved into place, so that a
+        # concurrent load of the same url finds either no copy or a complete one,
+        # never an empty or half written file.
+        part_file = "%s.%d.%d.part" % (cache_file, os.getpid(), threading.get_ident())
+        with open(part_file, "w", encoding="utf-8") as local_file:
             local_file.write(str(data))
+        os.replace(part_file, cache_file)
 
     return cache_file
 
